@@ -3,10 +3,12 @@
 package main
 
 import (
+	"bytes"
 	"crypto/sha1"
 	"encoding/json"
 	"flag"
 	"fmt"
+	"go/ast"
 	"os"
 	"os/exec"
 	"path/filepath"
@@ -203,6 +205,7 @@ type runner struct {
 	prog     *ssa.Program
 	pkgs     map[string]*ssa.Package // by repo-relative dir
 	pkgName  map[string]string
+	syntax   map[string][]*ast.File // by package path
 	overlay  map[string][]byte
 	loadTime time.Duration
 
@@ -277,6 +280,12 @@ func (r *runner) load() error {
 	if nerr > 0 {
 		return fmt.Errorf("%d package load errors (the tree does not type-check with the harness overlay)", nerr)
 	}
+	r.syntax = map[string][]*ast.File{}
+	packages.Visit(pkgs, nil, func(p *packages.Package) {
+		if strings.HasPrefix(p.PkgPath, "github.com/koordinator-sh/koordinator") {
+			r.syntax[p.PkgPath] = p.Syntax
+		}
+	})
 	prog, spkgs := ssautil.AllPackages(pkgs, ssa.InstantiateGenerics)
 	prog.Build()
 	r.prog = prog
@@ -594,6 +603,9 @@ func (r *runner) runNative(cases []replayCase) ([]nativeOutcome, error) {
 		}
 		repl[virt] = p
 	}
+	if err := r.nativeRedirects(tmp, repl); err != nil {
+		return nil, err
+	}
 	for pkg := range byPkg {
 		// collect harness functions of this package
 		var names []string
@@ -675,6 +687,124 @@ func (r *runner) runNative(cases []replayCase) ([]nativeOutcome, error) {
 		}
 	}
 	return out, nil
+}
+
+// nativeRedirects makes spec-level redirects whose replacement lives in the package of the replaced
+// function effective in the native replay too: the replaced declaration is renamed (suffix _zzvorig) in
+// an overlay copy of its source file and a forwarder with the original signature calls the replacement.
+// (Cross-package replacements stay engine-only; the harness has to be written so that the real function
+// is observably equivalent there.)
+func (r *runner) nativeRedirects(tmp string, repl map[string]string) error {
+	for from, to := range r.spec.Redirect {
+		dot := strings.LastIndex(to, ".")
+		if dot < 0 {
+			continue
+		}
+		toPkg, toName := to[:dot], to[dot+1:]
+		recv, name := "", ""
+		rest := from
+		if strings.HasPrefix(from, "(") {
+			end := strings.Index(from, ").")
+			if end < 0 {
+				continue
+			}
+			rt := strings.TrimPrefix(from[1:end], "*")
+			d := strings.LastIndex(rt, ".")
+			if d < 0 || rt[:d] != toPkg {
+				continue
+			}
+			recv, name = rt[d+1:], from[end+2:]
+		} else {
+			d := strings.LastIndex(rest, ".")
+			if d < 0 || rest[:d] != toPkg {
+				continue
+			}
+			name = rest[d+1:]
+		}
+		done := false
+		for _, f := range r.syntax[toPkg] {
+			for _, d := range f.Decls {
+				fd, ok := d.(*ast.FuncDecl)
+				if !ok || fd.Name.Name != name || fd.Body == nil {
+					continue
+				}
+				rname := ""
+				if recv != "" {
+					if fd.Recv == nil || len(fd.Recv.List) != 1 {
+						continue
+					}
+					te := fd.Recv.List[0].Type
+					if st, ok := te.(*ast.StarExpr); ok {
+						te = st.X
+					}
+					if id, ok := te.(*ast.Ident); !ok || id.Name != recv {
+						continue
+					}
+					if len(fd.Recv.List[0].Names) != 1 || fd.Recv.List[0].Names[0].Name == "_" {
+						return fmt.Errorf("native redirect of %s: unnamed receiver", from)
+					}
+					rname = fd.Recv.List[0].Names[0].Name
+				} else if fd.Recv != nil {
+					continue
+				}
+				tf := r.prog.Fset.File(fd.Pos())
+				path := tf.Name()
+				src, ok := r.overlay[path]
+				if !ok {
+					b, err := os.ReadFile(path)
+					if err != nil {
+						return err
+					}
+					src = b
+				}
+				if prev, ok := repl[path]; ok {
+					b, err := os.ReadFile(prev)
+					if err != nil {
+						return err
+					}
+					if !bytes.Equal(b, src) {
+						return fmt.Errorf("native redirect of %s: two redirects in one file are not supported", from)
+					}
+				}
+				var args []string
+				if rname != "" {
+					args = append(args, rname)
+				}
+				for _, fl := range fd.Type.Params.List {
+					if len(fl.Names) == 0 {
+						return fmt.Errorf("native redirect of %s: unnamed parameter", from)
+					}
+					for _, nm := range fl.Names {
+						if nm.Name == "_" {
+							return fmt.Errorf("native redirect of %s: blank parameter", from)
+						}
+						a := nm.Name
+						if _, ok := fl.Type.(*ast.Ellipsis); ok {
+							a += "..."
+						}
+						args = append(args, a)
+					}
+				}
+				nameEnd := tf.Offset(fd.Name.End())
+				sig := string(src[tf.Offset(fd.Pos()):tf.Offset(fd.Body.Lbrace)])
+				ret := "return "
+				if fd.Type.Results == nil || len(fd.Type.Results.List) == 0 {
+					ret = ""
+				}
+				out := string(src[:nameEnd]) + "_zzvorig" + string(src[nameEnd:]) + "\n\n// native-replay forwarder generated by gosym (spec redirect)\n" + sig + "{ " + ret + toName + "(" + strings.Join(args, ", ") + ") }\n"
+				np := filepath.Join(tmp, "redir_"+labelKey(from)+"_"+filepath.Base(path))
+				if err := os.WriteFile(np, []byte(out), 0644); err != nil {
+					return err
+				}
+				repl[path] = np
+				done = true
+			}
+		}
+		if !done {
+			return fmt.Errorf("native redirect of %s: declaration not found", from)
+		}
+	}
+	return nil
 }
 
 func tail(s string, n int) string {
